@@ -294,7 +294,7 @@ pub fn finish(meta: &Meta, ctx: &Ctx, report: &Report) -> i32 {
     let ev_dir = verif_root().join("evidence");
     let _ = std::fs::create_dir_all(&ev_dir);
     let ev_path = ev_dir.join(format!("{}.json", meta.id));
-    if ctx.replay.is_none() {
+    if ctx.replay.is_none() && meta.id.starts_with('C') {
         std::fs::write(&ev_path, serde_json::to_string_pretty(&evidence).unwrap())
             .expect("write evidence");
     }
